@@ -67,16 +67,19 @@ def sameOutcome : Except ConnErr (List Res × End) → Except ConnErr (List Res 
   | .error a, .error b => a == b
   | _, _ => false
 
-/-- Evaluate the hypotheses of `exchange_cut_segmented` on a real exchange (`full`: the peer's whole stream,
-`k`: the cut, `evs`: what was delivered) and compare the theorem's right-hand side with the model run:
-`#spec-ok`, `#spec-nohyp` (a hypothesis does not hold) or `#spec-differs` (never, by the theorem). -/
+/-- Evaluate the hypotheses of `exchange_zip_segmented` (and, when the replies answer the requests, of
+`exchange_cut_segmented`) on a real exchange (`full`: the peer's whole stream, `k`: the cut, `evs`: what was
+delivered) and compare the theorems' right-hand sides with the model run:
+`#spec-ok`, `#spec-nohyp` (a hypothesis does not hold) or `#spec-differs` (never, by the theorems). -/
 def specVerdict (depth : Nat) (issued : List Iss) (evs : List Ev) (k : Nat) (full : Bytes) : String :=
   match splitFrames full.length full, afterData evs with
   | reg :: fs, [t] =>
     let closed := t == .eof
-    if t = termEv closed ∧ joinData evs = (stream (reg :: fs)).take k ∧ IsRegister reg ∧
-        Served parseFrame fs ∧ AllMatch issued (fs.flatMap (colsOf parseFrame)) then
-      if sameOutcome (exchange parseFrame depth issued evs) (exchangeCutSpec parseFrame issued reg fs k closed)
+    if t = termEv closed ∧ joinData evs = (stream (reg :: fs)).take k ∧ IsRegister reg ∧ Served parseFrame fs then
+      let run := exchange parseFrame depth issued evs
+      if sameOutcome run (exchangeZipSpec parseFrame issued reg fs k closed) &&
+         (!(decide (AllMatch issued (fs.flatMap (colsOf parseFrame)))) ||
+          sameOutcome run (exchangeCutSpec parseFrame issued reg fs k closed))
       then "#spec-ok" else "#spec-differs"
     else "#spec-nohyp"
   | _, _ => "#spec-nohyp"
